@@ -285,3 +285,113 @@ theorem rate_accuracy (A : Int) (hA : A.natAbs < 2 ^ 53) :
     constructor <;> omega
 
 end Ntrip.F64
+
+namespace Ntrip.F64
+
+theorem lt_pow_bitLen (a : Nat) : a < 2 ^ bitLen a := by
+  unfold bitLen
+  split
+  · rename_i h; subst h; decide
+  · rename_i h; exact Nat.lt_log2_self
+
+theorem bitLen_ge {a b : Nat} (h : 2 ^ b ≤ a) : b + 1 ≤ bitLen a := by
+  apply Nat.le_of_not_lt
+  intro hlt
+  have h1 : bitLen a ≤ b := by omega
+  have h2 := lt_pow_bitLen a
+  have h3 : 2 ^ bitLen a ≤ 2 ^ b := Nat.pow_le_pow_right (by omega) h1
+  omega
+
+/-- **Division is correctly rounded.**  For a non-zero dividend mantissa `am` and a positive divisor
+    mantissa `d`, the quotient mantissa `Z·2^-k` chosen by `divVal` satisfies
+    `|Z·d − am·2^s| ≤ 2^-53 · |am|·2^s` (with `s = 64 + bitLen d`, `Z` already multiplied by `2^k`). -/
+theorem div_err (am : Int) (d : Nat) (ha : am ≠ 0) (hd : 0 < d) :
+    let s := 64 + bitLen d
+    let n := am * 2 ^ s
+    let k := bitLen (n.natAbs / d) - 53
+    let Z := rhe n ((d : Int) * 2 ^ k) * 2 ^ k
+    2 ^ 53 * (Z * d - n) ≤ (n.natAbs : Int) ∧ -(n.natAbs : Int) ≤ 2 ^ 53 * (Z * d - n) := by
+  intro s n k Z
+  have hP : (0 : Int) < 2 ^ k := Int.pow_pos (by omega)
+  have hD : (0 : Int) < (d : Int) := by exact_mod_cast hd
+  have hp : (0 : Int) < (d : Int) * 2 ^ k := Int.mul_pos hD hP
+  obtain ⟨r1, r2⟩ := rhe_err n ((d : Int) * 2 ^ k) hp
+  -- |n| ≥ 2^64 * d
+  have hApos : 1 ≤ am.natAbs := by omega
+  have hN : n.natAbs = am.natAbs * 2 ^ s := by
+    show (am * 2 ^ s).natAbs = _
+    rw [Int.natAbs_mul, Int.natAbs_pow]; rfl
+  have hdlt := lt_pow_bitLen d
+  have hq : 2 ^ 64 ≤ n.natAbs / d := by
+    rw [hN, Nat.le_div_iff_mul_le hd]
+    have h1 : 2 ^ 64 * d ≤ 2 ^ 64 * 2 ^ bitLen d := Nat.mul_le_mul_left _ (Nat.le_of_lt hdlt)
+    have h2 : 2 ^ 64 * 2 ^ bitLen d = 2 ^ s := by rw [← Nat.pow_add]
+    have h3 : 2 ^ s ≤ am.natAbs * 2 ^ s := Nat.le_mul_of_pos_left _ hApos
+    omega
+  have hbq : 65 ≤ bitLen (n.natAbs / d) := bitLen_ge hq
+  have hlow := le_of_bitLen (a := n.natAbs / d) (by omega)
+  have hsplit : bitLen (n.natAbs / d) - 1 = 52 + k := by show _ = 52 + (bitLen (n.natAbs / d) - 53); omega
+  rw [hsplit, Nat.pow_add] at hlow
+  have hqd := Nat.div_mul_le_self n.natAbs d
+  have hlow2 : 2 ^ 52 * 2 ^ k * d ≤ n.natAbs := Nat.le_trans (Nat.mul_le_mul_right _ hlow) hqd
+  have hlow3 : (2 : Int) ^ 52 * ((d : Int) * 2 ^ k) ≤ (n.natAbs : Int) := by
+    have h' := Int.ofNat_le.mpr hlow2
+    simp only [Int.natCast_mul, Int.natCast_pow] at h'
+    have e : (2 : Int) ^ 52 * ((d : Int) * 2 ^ k) = ((2 : Nat) : Int) ^ 52 * ((2 : Nat) : Int) ^ k * (d : Int) := by
+      rw [Int.mul_comm (d : Int), Int.mul_assoc]; rfl
+    rw [e]; exact h'
+  have hmul : rhe n ((d : Int) * 2 ^ k) * ((d : Int) * 2 ^ k) = Z * d := by
+    show _ = rhe n ((d : Int) * 2 ^ k) * 2 ^ k * (d : Int)
+    rw [Int.mul_assoc, Int.mul_comm (d : Int)]
+  rw [hmul] at r1 r2
+  generalize Z * (d : Int) = ZD at r1 r2 ⊢
+  generalize (d : Int) * 2 ^ k = DP at hp r1 r2 hlow3
+  constructor <;> omega
+
+end Ntrip.F64
+
+namespace Ntrip.F64
+
+/-- The two roundings in front of the division: `X = fl(S/2^31 · cLight)`. -/
+theorem lightms_core (S : Nat) (j0 : Int) (hS1 : 1 ≤ S) (hS : S < 2 ^ 41) :
+    ∃ (k1 : Nat) (Xm : Int), mul (scale2 (ofInt S) j0) cLightMs = { m := Xm, e := j0 + -34 + k1 } ∧ 0 < Xm ∧
+      2 ^ 53 * (Xm * 2 ^ k1 - S * 5150395210789814) ≤ S * 5150395210789814 ∧
+      -((S : Int) * 5150395210789814) ≤ 2 ^ 53 * (Xm * 2 ^ k1 - S * 5150395210789814) := by
+  have hof : ofInt (S : Int) = { m := S, e := 0 } :=
+    ofInt_exact S (by rw [Int.natAbs_natCast]; exact Nat.lt_of_lt_of_le hS (Nat.pow_le_pow_right (by omega) (by omega)))
+  obtain ⟨r1, r2⟩ := round53_err ((S : Int) * 5150395210789814)
+  have hA : (((S : Int) * 5150395210789814).natAbs : Int) = (S : Int) * 5150395210789814 := by
+    rw [Int.natAbs_mul]; simp
+  rw [hA] at r1 r2
+  refine ⟨bitLen ((S : Int) * 5150395210789814).natAbs - 53, rhe ((S : Int) * 5150395210789814) (2 ^ (bitLen ((S : Int) * 5150395210789814).natAbs - 53)), ?_, ?_, r1, r2⟩
+  · show mul (scale2 (ofInt S) j0) cLightMs = _
+    rw [hof]
+    unfold mul scale2 cLightMs round53
+    simp only [Int.zero_add]
+  · have hS0 : (1 : Int) ≤ S := by exact_mod_cast hS1
+    apply Int.lt_of_not_ge
+    intro hle
+    have hP : (0 : Int) < 2 ^ (bitLen ((S : Int) * 5150395210789814).natAbs - 53) := Int.pow_pos (by omega)
+    have := Int.mul_le_mul_of_nonneg_right hle (Int.le_of_lt hP)
+    rw [Int.zero_mul] at this
+    omega
+end Ntrip.F64
+
+namespace Ntrip.F64
+theorem div_core (X W : Val) (hX : 0 < X.m) (hW : 0 < W.m) :
+    ∃ (k2 : Nat) (Cm : Int),
+      divVal X W = { m := Cm, e := X.e - W.e - ((64 + bitLen W.m.natAbs : Nat) : Int) + k2 } ∧
+      2 ^ 53 * (Cm * 2 ^ k2 * W.m - X.m * 2 ^ (64 + bitLen W.m.natAbs)) ≤ X.m * 2 ^ (64 + bitLen W.m.natAbs) ∧
+      -(X.m * 2 ^ (64 + bitLen W.m.natAbs)) ≤ 2 ^ 53 * (Cm * 2 ^ k2 * W.m - X.m * 2 ^ (64 + bitLen W.m.natAbs)) := by
+  have hd : 0 < W.m.natAbs := by omega
+  have hcast : ((W.m.natAbs : Nat) : Int) = W.m := by omega
+  obtain ⟨r1, r2⟩ := div_err X.m W.m.natAbs (by omega) hd
+  have hn : ((X.m * 2 ^ (64 + bitLen W.m.natAbs)).natAbs : Int) = X.m * 2 ^ (64 + bitLen W.m.natAbs) := by
+    have : (0 : Int) ≤ X.m * 2 ^ (64 + bitLen W.m.natAbs) := Int.mul_nonneg (by omega) (Int.le_of_lt (Int.pow_pos (by omega)))
+    omega
+  rw [hn, hcast] at r1 r2
+  refine ⟨_, _, ?_, r1, r2⟩
+  unfold divVal
+  have hne : ¬ X.m = 0 := by omega
+  simp only [if_neg hne, hcast]
+end Ntrip.F64
